@@ -83,6 +83,68 @@ theorem C10_okta_never_panics (t : TokenResp) (u : UserinfoResp) : (oktaRedeem t
   rename_i e v
   by_cases h1 : e = [] <;> cases v <;> simp [h1]
 
+/-- Cognito: a session only if the token endpoint answered with a non-empty access token and `/oauth2/userInfo` answered 200
+with a non-empty e-mail — and the session's e-mail is that one. -/
+theorem C10_cognito_session_only_if (t : TokenResp) (u : UserinfoResp) (e : Bytes) (at' rt : String) (ttl : Int)
+    (h : (cognitoRedeem t u).1 = .session e at' rt ttl) :
+    (∃ idTok, t = .ok at' rt idTok ttl) ∧ at' ≠ "" ∧ (∃ v, u = .ok e v) ∧ e ≠ [] := by
+  unfold cognitoRedeem at h
+  cases t with
+  | status n => simp at h
+  | transport => simp at h
+  | malformed => simp at h
+  | ok a r i l =>
+    simp only at h
+    by_cases h0 : a = ""
+    · simp [h0] at h
+    · simp only [h0, if_false] at h
+      cases u with
+      | status n => simp at h
+      | transport => simp at h
+      | malformed => simp at h
+      | ok em v =>
+        simp only at h
+        by_cases h1 : em = []
+        · simp [h1] at h
+        · simp only [h1, if_false, LoginRes.session.injEq] at h
+          obtain ⟨he, ha, hr, hl⟩ := h
+          subst he ha hr hl
+          exact ⟨⟨i, rfl⟩, h0, ⟨v, rfl⟩, h1⟩
+
+theorem C10_cognito_never_panics (t : TokenResp) (u : UserinfoResp) : (cognitoRedeem t u).1 ≠ .panic := by
+  unfold cognitoRedeem
+  cases t <;> simp
+  rename_i a r i l
+  by_cases h0 : a = "" <;> simp [h0]
+  cases u <;> simp
+  rename_i e v
+  by_cases h1 : e = [] <;> simp [h1]
+
+/-- every failing answer (any non-200, transport error, malformed body, empty access token, empty e-mail) ends in an error and
+the userinfo endpoint is not even asked when the token call failed -/
+theorem C10_cognito_error_cases (t : TokenResp) (u : UserinfoResp)
+    (h : (∀ a r i l, t ≠ .ok a r i l) ∨ (∃ r i l, t = .ok "" r i l) ∨ (∀ e v, u ≠ .ok e v) ∨ (∃ v, u = .ok [] v)) :
+    (cognitoRedeem t u).1 = .error := by
+  unfold cognitoRedeem
+  cases t with
+  | status n => rfl
+  | transport => rfl
+  | malformed => rfl
+  | ok a r i l =>
+    simp only
+    by_cases h0 : a = ""
+    · simp [h0]
+    · simp only [h0, if_false]
+      rcases h with h | ⟨r', i', l', h⟩ | h | ⟨v, h⟩
+      · exact absurd rfl (h a r i l)
+      · cases h; exact absurd rfl h0
+      · cases u with
+        | ok e v => exact absurd rfl (h e v)
+        | _ => rfl
+      · subst h; simp
+
+example : (cognitoRedeem (.ok "at" "rt" "" 600) (.ok [97] false)).1 = .session [97] "at" "rt" 600 := rfl
+
 /-- the pinned tree crashed on an id_token without a second segment (finding (g), fixed) -/
 theorem C10_unfixed_panics : googleRedeemUnfixed (.ok "a" "r" "nodots" 60) .noSecondSegment = .panic := rfl
 
@@ -111,7 +173,7 @@ what the model in this file transliterates. A structural edit of any of these fu
 check searching for a failing input. -/
 theorem C10_wiring :
     Sso.Generated.skel_auth_getOAuthCallback =
-      ["call:NewLogEntry", "call:getRemoteAddr", "call:ParseForm", "if{", "call:Error", "return", "}", "call:Get", "if{", "call:append", "call:Incr", "return", "}", "call:Get", "if{", "return", "}", "call:redeemCode", "if{", "call:append", "call:Incr", "call:WithRemoteAddress", "call:Error", "return", "}", "call:Get", "call:DecodeString", "if{", "return", "}", "call:string", "call:SplitN", "call:len", "if{", "call:append", "call:Incr", "return", "}", "call:GetCSRF", "if{", "call:append", "call:Incr", "return", "}", "call:ClearCSRF", "if{", "call:append", "call:Incr", "call:WithRemoteAddress", "call:Error", "return", "}", "call:validRedirectURI", "if{", "call:append", "call:Incr", "return", "}", "call:RunValidators", "call:len", "call:len", "if{", "call:append", "call:Incr", "call:Sprintf", "call:WithRemoteAddress", "call:WithUser", "call:Info", "call:len", "call:make", "range{", "call:Error", "call:append", "}", "call:Join", "call:Sprintf", "return", "}", "call:Sprintf", "call:WithRemoteAddress", "call:WithUser", "call:Info", "call:WithRemoteAddress", "call:WithUser", "call:Info", "call:SaveSession", "if{", "call:append", "call:Incr", "call:WithRemoteAddress", "call:Error", "return", "}", "return"] ∧
+      ["call:getRemoteAddr", "call:ParseForm", "if{", "call:Error", "return", "}", "call:Get", "if{", "return", "}", "call:Get", "if{", "return", "}", "call:redeemCode", "if{", "return", "}", "call:Get", "call:DecodeString", "if{", "return", "}", "call:string", "call:SplitN", "call:len", "if{", "return", "}", "call:GetCSRF", "if{", "return", "}", "call:ClearCSRF", "if{", "return", "}", "call:validRedirectURI", "if{", "return", "}", "call:RunValidators", "call:len", "call:len", "if{", "call:len", "call:make", "range{", "call:Error", "call:append", "}", "call:Join", "call:Sprintf", "return", "}", "call:SaveSession", "if{", "return", "}", "return"] ∧
     Sso.Generated.skel_google_Redeem =
       ["if{", "return", "}", "call:Add", "call:Add", "call:Add", "call:Add", "call:Add", "call:String", "call:googleRequest", "if{", "return", "}", "call:emailFromIDToken", "if{", "return", "}", "call:Duration", "call:ExtendDeadline", "call:ExtendDeadline", "return"] ∧
     Sso.Generated.skel_okta_Redeem =
